@@ -68,7 +68,7 @@ func c08Candidates(c *Ctx, rule string, find *ssa.Function) {
 				if rg == nil {
 					return "not a range over the port table"
 				}
-				if _, isPorts := isFieldLoadNamed(rg.X, "ports"); !isPorts {
+				if _, isPorts := isFieldLoadNamed(rg.X, portTableField(c.P)); !isPorts {
 					return "the candidate list is taken from a range over " + RenderN(rg.X, 3) + ", not over the port table"
 				}
 				for _, dc := range conds {
